@@ -327,7 +327,10 @@ def run_property(prop: str, tier: str = "quick", replay: Optional[str] = None, t
             ev2, d2, fails2, _ = suite.run(REG, seed, 2000 if tier == "quick" else 20000, only=fn_tail)
             if fails2:
                 concrete = fails2[0]
-        if r.status == "sat" or in_ledger or concrete is not None:
+        if r.status == "error" and concrete is None:
+            # a back end rejected the query (malformed term, unsupported construct): a checker problem, never a verdict
+            limits.append("%s: solver error on obligation %s (%s)" % (r.func, r.name, (r.detail or "")[:120]))
+        elif r.status == "sat" or in_ledger or concrete is not None:
             violations.append((r, concrete))
         else:
             undecided.append(r)
